@@ -19,6 +19,9 @@ Record C04_case := {
   c4_av  : list lnk;          (* article_label_version                     *)
   c4_notes : list (Z * val);  (* live note rows (id, article_id) - Note is not versioned *)
   c4_aobs : list art_obs; c4_tobs : list tag_obs; c4_lobs : list lab_obs;
+  (* history cases only: transaction id -> the application's own tables at the commit that ended it:
+     live article keys, (tag key, tag.article_id), (article, label) links *)
+  c4_live : list (Z * (list Z * list (Z * val) * list (Z * Z)));
   c4_exc : bool }.
 
 Definition swap_lnk (a : lnk) : lnk := mklnk (k_r a) (k_l a) (k_tx a) (k_op a).
@@ -72,8 +75,49 @@ Definition spec_m2o (tp : vtable) (fk : val) (x : Z) : option vref :=
               | None => None end
   end.
 
+(* ---- end to end (history cases): the relationship of a version shows what was related in the
+   application's own tables at the end of that version's transaction ---- *)
+Definition same_keysZ (a b : list Z) : bool :=
+  forallb (fun x => existsb (Z.eqb x) b) a && forallb (fun x => existsb (Z.eqb x) a) b.
+Definition live_at (c : C04_case) (T : Z) := find (fun x => fst x =? T) (c4_live c).
+
+Definition e2e_art (c : C04_case) (o : art_obs) : bool :=
+  match live_at c (ao_tx o), find_row (c4_art c) [ao_key o] (ao_tx o) with
+  | Some (_, (arts, tags, lnks)), Some r =>
+      (vop r =? OP_DEL) ||
+      (same_keysZ (map fst (ao_tags o)) (map fst (filter (fun t => sql_eq (snd t) (Some (ao_key o))) tags)) &&
+       same_keysZ (map fst (ao_labels o)) (map snd (filter (fun p => fst p =? ao_key o) lnks)))
+  | _, _ => true
+  end.
+
+Definition e2e_tag (c : C04_case) (o : tag_obs) : bool :=
+  match live_at c (to_tx o), find_row (c4_tag c) [to_key o] (to_tx o) with
+  | Some (_, (arts, tags, _)), Some r =>
+      (vop r =? OP_DEL) ||
+      match find (fun t => fst t =? to_key o) tags with
+      | Some (_, Some fk) =>
+          if existsb (Z.eqb fk) arts
+          then match to_article o with Some (k, _) => k =? fk | None => false end
+          else match to_article o with None => true | Some _ => false end
+      | Some (_, None) => match to_article o with None => true | Some _ => false end
+      | None => true
+      end
+  | _, _ => true
+  end.
+
+Definition e2e_lab (c : C04_case) (o : lab_obs) : bool :=
+  match live_at c (lo_tx o), find_row (c4_lab c) [lo_key o] (lo_tx o) with
+  | Some (_, (_, _, lnks)), Some r =>
+      (vop r =? OP_DEL) ||
+      same_keysZ (map fst (lo_articles o)) (map fst (filter (fun p => snd p =? lo_key o) lnks))
+  | _, _ => true
+  end.
+
+Definition C04_e2e (c : C04_case) : bool :=
+  forallb (e2e_art c) (c4_aobs c) && forallb (e2e_tag c) (c4_tobs c) && forallb (e2e_lab c) (c4_lobs c).
+
 Definition C04_prop (c : C04_case) : bool :=
-  negb (c4_exc c) &&
+  negb (c4_exc c) && C04_e2e c &&
   (length (c4_aobs c) =? length (c4_art c))%nat && (length (c4_tobs c) =? length (c4_tag c))%nat &&
   (length (c4_lobs c) =? length (c4_lab c))%nat &&
   forallb (fun o =>
